@@ -331,11 +331,28 @@ def impl_run(case):
         "before_step": lambda ctx, st: emit("bs%s" % st.name.split()[-1]),
     }
 
-    def before_scenario(ctx, sc):
-        checks.append(["before_scenario", sys.stdout is real_out, sys.stderr is real_err] + state())
+    # the parts of the scenario hooks that may raise; optionally wrapped in behave's @capture decorator for hooks
+    def inner_before(ctx, sc):
         if int(sc.name[1:]) in case.get("bad_before", []):
             raise RuntimeError("before_scenario hook fails")
+
+    def inner_after(ctx, sc):
+        if int(sc.name[1:]) in case.get("bad_after", []):
+            raise RuntimeError("after_scenario hook fails")
+    if case.get("decorate"):
+        from behave.log_capture import capture
+        inner_before = capture(level=logging.ERROR)(inner_before)
+        inner_after = capture(inner_after)
+
+    def before_scenario(ctx, sc):
+        checks.append(["before_scenario", sys.stdout is real_out, sys.stderr is real_err] + state())
+        inner_before(ctx, sc)
     hooks["before_scenario"] = before_scenario
+
+    def after_scenario(ctx, sc):
+        checks.append(["after_scenario", sys.stdout is real_out, sys.stderr is real_err])
+        inner_after(ctx, sc)
+    hooks["after_scenario"] = after_scenario
 
     def after_step(ctx, st):
         emit("as%s" % st.name.split()[-1])
@@ -469,6 +486,7 @@ def suites(tier, seed):
             runs.append({"switches": {"out": sw[0], "err": sw[1], "log": sw[2]}, "clear": rnd.random() < 0.6,
                          "handlers": rnd.choice([[1], [1, 2], [1, 2, 3]]), "scenarios": scen,
                          "junit": rnd.random() < 0.5, "root_level": rnd.choice([30, 30, 0, 10, 40]),
+                         "decorate": rnd.random() < 0.3, "bad_after": [i for i in range(len(scen)) if rnd.random() < 0.2],
                          "bad_before": [i for i in range(len(scen)) if rnd.random() < 0.25]})
     return [
         {"name": "controller", "cases": ctl, "impl": impl_controller, "oracle": oracle_controller,
